@@ -358,10 +358,31 @@ async fn run_impl_async(c: &Case) -> ImplOut {
     let mut lfinal: BTreeMap<u32, Option<(u64, u64, u64)>> = BTreeMap::new();
     if seedable {
         let local = seeded_local(c).await;
-        for o in local_history(c, &run.executed) {
+        // oracle for the in-memory backend: an update succeeds iff it is based on the stored
+        // generation (absent = 0 for a creation) and then stores exactly expected + 1
+        let mut ref_gen: BTreeMap<u32, Option<u64>> = sids.iter().map(|s| (*s, c.init.get(s).map(|v| v.0))).collect();
+        for (i, o) in local_history(c, &run.executed).iter().enumerate() {
             let m = make_meta(o.sid, 77, o.st, o.dt);
             let r = local.update_shard_metadata(&sid_name(o.sid), &m, o.expected).await;
-            lres.push(res_string(&r));
+            let rs = res_string(&r);
+            let cur = ref_gen[&o.sid];
+            let want = match cur {
+                Some(g) if g == o.expected => "ok".to_string(),
+                Some(g) => format!("stale.{}.{}", o.expected, g),
+                None if o.expected == 0 => "ok".to_string(),
+                None => "notfound".to_string(),
+            };
+            if rs != want {
+                bad.push(format!("in-memory backend: update {} of shard {} with expected generation {} over stored generation {:?} returned {} (must be {})", i, o.sid, o.expected, cur, rs, want));
+            }
+            if rs == "ok" {
+                ref_gen.insert(o.sid, Some(o.expected + 1));
+                let got = local.get_shard_metadata(&sid_name(o.sid)).await.ok().flatten().and_then(|m| canon(&m));
+                if got != Some((o.expected + 1, o.st, o.dt)) {
+                    bad.push(format!("in-memory backend: after a successful update based on generation {} the shard is {:?}", o.expected, got));
+                }
+            }
+            lres.push(rs);
         }
         for sid in &sids {
             lfinal.insert(*sid, local.get_shard_metadata(&sid_name(*sid)).await.ok().flatten().and_then(|m| canon(&m)));
